@@ -9,6 +9,7 @@ every body that satisfies `BodyWF`.
 -/
 import SwimVerif.Proofs.Envelope
 import SwimVerif.Proofs.Routing
+import SwimVerif.Proofs.MultiReader
 
 set_option linter.unusedSimpArgs false
 namespace SwimVerif.C11
@@ -367,5 +368,36 @@ example : (step (reach []) (.input "@link(node:\"/a\",lane:x)".toList)).2 =
     [.find "/a".toList "x".toList none, .peer "@unlinked(node:\"/a\",lane:x)@nodeNotFound".toList] := by decide
 
 end Routing
+
+/-!
+## Part 3 (multiplexer).  Quantifier: every sequence of `add`/`push`/`close`/`poll` operations (= every interleaving
+of the sources' writes with the reader's polls), any number of sources (several 64-stream buckets).
+-/
+section Multiplexer
+open SwimVerif.MultiReader
+
+/-- States reachable by any operation sequence from an empty `MultiReader`. -/
+def mreach (ops : List MultiReader.Op) : MultiReader.St := MultiReader.run MultiReader.init ops
+
+/-- **`per_source_fifo`**: for every source, what was delivered from it followed by what it still holds is exactly
+what was pushed into it — nothing lost, nothing duplicated, nothing reordered, nothing invented. -/
+theorem C11_per_source_fifo (ops : List MultiReader.Op) (s : Nat) :
+    proj (mreach ops).delivered s ++ ((mreach ops).sources.getD s {}).q = proj (mreach ops).pushed s := by
+  have h := (fifoInv_run MultiReader.init fifoInv_init ops).fifo s
+  simp only [data, List.getD_eq_getElem?_getD, List.getElem?_map] at h
+  simp only [mreach, List.getD_eq_getElem?_getD]
+  cases hs : (MultiReader.run MultiReader.init ops).sources[s]? with
+  | none => simpa [hs] using h
+  | some a => simpa [hs] using h
+
+/-- Hence each source's deliveries are a prefix of its pushes, in push order. -/
+theorem C11_delivered_prefix_of_pushed (ops : List MultiReader.Op) (s : Nat) :
+    proj (mreach ops).delivered s <+: proj (mreach ops).pushed s :=
+  ⟨_, C11_per_source_fifo ops s⟩
+
+example : (mreach [.add, .add, .push 0 1, .push 1 2, .push 0 3, .poll, .poll, .poll]).delivered =
+    [(0, 1), (1, 2), (0, 3)] := by decide
+
+end Multiplexer
 
 end SwimVerif.C11
